@@ -87,18 +87,23 @@ static int on_stack(uintptr_t a)
 typedef struct { uintptr_t addr; int write; int cls; const char* fn; } OwnHit;
 static OwnHit g_ownhits[2048]; static int g_nown;
 static const char* g_own_fn = "";
+static uintptr_t g_ro_lo, g_ro_hi;     /* an object passed to a reading operation: the library must not write it */
 static uint64_t g_own_checked;
 
 static void sched_yield_point(void);
 
 static void vt_access(const void* p, size_t n, int is_write)
 {
-    (void)n;
-    if (g_mode == MODE_OFF) return;
+    if (g_mode == MODE_OFF || n == 0) return;
     uintptr_t a = (uintptr_t)p;
     g_hooks++;
     if (g_mode == MODE_OWN) {
         g_own_checked++;
+        if (is_write && a >= g_ro_lo && a < g_ro_hi) {
+            for (int i = 0; i < g_nown; i++) if (g_ownhits[i].fn == g_own_fn && g_ownhits[i].cls == 9) return;
+            if (g_nown < 2048) { g_ownhits[g_nown].addr = a; g_ownhits[g_nown].write = 1; g_ownhits[g_nown].cls = 9; g_ownhits[g_nown].fn = g_own_fn; g_nown++; }
+            return;
+        }
         if (on_stack(a) || in_arena(a)) return;
         int sc = seg_class(a);
         if (sc == 1 && !is_write) return;
@@ -321,7 +326,8 @@ static int run_driver(int di, int nthr, int bound, int report)
 /* ------------------------------------------------------------------ */
 /* ownership pass                                                      */
 /* ------------------------------------------------------------------ */
-static void own_begin(const char* fn) { g_own_fn = fn; g_mode = MODE_OWN; }
+static void own_begin(const char* fn) { g_own_fn = fn; g_ro_lo = g_ro_hi = 0; g_mode = MODE_OWN; }
+static void own_begin_ro(const char* fn, const uint8_t* p, size_t n) { own_begin(fn); g_ro_lo = (uintptr_t)p; g_ro_hi = g_ro_lo + n; }
 static void own_end(void)
 {
     g_mode = MODE_OFF;
@@ -331,7 +337,7 @@ static void own_report(void)
 {
     for (int i = 0; i < g_nown; i++) {
         char key[256];
-        const char* what = g_ownhits[i].cls == 2 ? (g_ownhits[i].write ? "write to a writable static-storage object" : "read of a writable static-storage object")
+        const char* what = g_ownhits[i].cls == 9 ? "write to an object that was passed to a reading operation" : g_ownhits[i].cls == 2 ? (g_ownhits[i].write ? "write to a writable static-storage object" : "read of a writable static-storage object")
                          : g_ownhits[i].cls == 1 ? "write to a read-only image segment" : (g_ownhits[i].write ? "write to memory that was not passed in" : "read of memory that was not passed in");
         snprintf(key, sizeof key, "ownership: %s", what);
         violation("C16", key, "O:0", "during %s: access at %p", g_ownhits[i].fn, (void*)g_ownhits[i].addr);
@@ -349,11 +355,19 @@ static void ownership_pass(void)
         for (int f = 0; f < F->nf; f++) {
             snprintf(nm, sizeof nm, "%s GetField/SetField(%s)", F->name, F->f[f].name); own_begin(strdup(nm));
             w_set((uint64_t)fmt, (uint64_t)f, 0, p, ~0ull); (void)w_get((uint64_t)fmt, (uint64_t)f, 0, p); own_end();
-            if (F->f[f].hasg) { own_begin(F->f[f].getter); (void)w_get((uint64_t)fmt, (uint64_t)f, 1, p); own_end(); }
+            if (F->f[f].hasg) { own_begin_ro(F->f[f].getter, p, 64); (void)w_get((uint64_t)fmt, (uint64_t)f, 1, p); own_end(); }
+            snprintf(nm, sizeof nm, "%s GetField(%s)", F->name, F->f[f].name); own_begin_ro(strdup(nm), p, 64); (void)w_get((uint64_t)fmt, (uint64_t)f, 0, p); own_end();
             if (F->f[f].hass) { own_begin(F->f[f].setter); w_set((uint64_t)fmt, (uint64_t)f, 1, p, 0x0123456789ABCDEFull); own_end(); }
             if (F->has_legacy) { snprintf(nm, sizeof nm, "%s legacy get/set(%s)", F->name, F->f[f].name); own_begin(strdup(nm));
                 uint64_t id = w_enumv((uint64_t)fmt, (uint64_t)f); w_lset((uint64_t)fmt, p, id, 5); w_lget((uint64_t)fmt, p, id, 0, out8); own_end(); }
         }
+    }
+    for (int fmt = 0; fmt < g_nfmts; fmt++) {
+        snprintf(nm, sizeof nm, "%s GetField/SetField with invalid arguments", g_fmts[fmt].name); own_begin(strdup(nm));
+        (void)w_getid((uint64_t)fmt, p, 200); w_setid((uint64_t)fmt, p, 200, 1); (void)w_getid((uint64_t)fmt, NULL, 0); w_setid((uint64_t)fmt, NULL, 0, 1);
+        (void)w_getid((uint64_t)fmt, p, (uint64_t)-1); w_init((uint64_t)fmt, NULL);
+        if (g_fmts[fmt].has_legacy) { (void)w_lget((uint64_t)fmt, NULL, 0, 0, out8); (void)w_lget((uint64_t)fmt, p, 250, 0, out8); (void)w_lset((uint64_t)fmt, p, 250, 1); }
+        own_end();
     }
     own_begin("Avtp_GetField/Avtp_SetField (generic)"); w_gset(1, 5, 64, p, ~0ull); (void)w_gget(1, 5, 64, p); own_end();
     /* hand-written serialisers, with every object reachable from an argument inside the arena */
@@ -362,6 +376,7 @@ static void ownership_pass(void)
         g_nthr = 3;
         own_begin("ACF-CAN builders"); d_can_setup(); g_mode = MODE_OWN; d_builder_body(t); w_canbrief_create(buf_of(t), 0x123, buf_of(t) + 1024, 7, 1); w_canbrief_steps(buf_of(t), 0x123, buf_of(t) + 1024, 8, 0); w_can_steps(buf_of(t), 0x7ff, buf_of(t) + 1024, 5, 0); own_end();
         own_begin("VSS codec"); d_vss_body(t); w_vss_pathlen(buf_of(t)); { uint8_t o[8]; w_vss_get_path(buf_of(t), (uint64_t)(t == 1), buf_of(t) + 3500, o); } own_end();
+        own_begin_ro("VSS decoding of a message", g_arena, 256); g_mode = MODE_OFF; d_vss_shared_setup(); g_mode = MODE_OWN; d_vss_shared_body(t); own_end();
         own_begin("VSS string arrays"); d_sa_body(t); own_end();
     }
     for (int t = 0; t < MAXT; t++) g_res[t].n = 0;
